@@ -60,6 +60,22 @@ NOTES = {
  "s33_pushn_strip_leading_zeros": ("plain-text reader strips leading zeros of PUSHn 0x.. operands", "a zero constant written PUSHn 0x0.. (also produced by the -bl output with PUSH0 disabled)"),
  "s34_ub_seed_depth": ("upper-bound seed reduced by the depth of the result in the target stack", "an instruction whose result ends at depth >= 2 of the target stack under cheap elements"),
  "s35_zero_push_priced_in_table": ("cost table prices PUSH 0 as PUSH0 regardless of the flag", "-push0 and a zero push; gas criterion and a duplicated zero for a wrong replacement"),
+ "s37_assignimmutable_by_name": ("rebuild re-inserts the splitting instruction looked up by name instead of by position",
+                                 "a block with two ASSIGNIMMUTABLE of different ids and an improvable sub-block before the first one"),
+ "s38_restoring_store_dropped": ("'second identical store is useless' also tolerates other stores in between (only hashes were allowed)",
+                                 "MSTORE(x,y); an overlapping or possibly aliasing store; MSTORE(x,y) again"),
+ "s39_addmod_fold_wraps": ("constant folding of ADDMOD/MULMOD reduces the sum/product modulo 2^256 before taking the modulus",
+                           "three constant operands whose sum/product reaches 2^256 and a modulus that does not divide 2^256"),
+ "s40_target_stack_skips_duplicates": ("checker skips target-stack positions whose element already occurred in the original's target stack",
+                                       "the original leaves one element at two positions and the other block differs at the deeper occurrence"),
+ "s41_store_empty_cell_unconstrained": ("-empty encoding: after a store only one of the two vacated cells is constrained to be empty",
+                                        "-empty; a store executed when the stack height equals max_sk_sz"),
+ "s42_kept_message_raises_without_tag": ("the 'initial block is kept' message concatenates old_block.tag, an int for blocks without tag",
+                                         "a block without tag (first block / fall-through) whose comparison fails or whose analysis fails"),
+ "s43_reset_only_on_success": ("init_globals() moved from the start of smt_translate_block to its normal return path",
+                               "a block whose translation raises after a rule fired (PC under an EVAL), immediately followed by a block translated as a whole"),
+ "s44_lvars_conflicts_set_order": ("l_vars conflict constraints built from a set of string ids",
+                                   "-memory-encoding l_vars and an instruction with >= 2 predecessors that carry an l variable; different PYTHONHASHSEED"),
  "s36_not_comparison_swapped": ("not(a<b) simplified to b<a (converse instead of negation)", "a negated order comparison whose operands evaluate to the same integer"),
 }
 for name, (what, needs) in NOTES.items():
